@@ -754,6 +754,7 @@ func runC18(c *gen.Ctx) error {
 	c18MDRTGen(c)
 	c18HdrRTGen(c)
 	c18GetRTGen(c)
+	c18GetWireGen(c)
 
 	// ---- percent-encoding: every byte, pairs, random strings
 	for b := 0; b < 256; b++ {
@@ -845,7 +846,9 @@ func runC18Facts(c *gen.Ctx) error {
 		}
 		fmt.Fprintf(&sb, "%v", grpcutil.ShouldEscapeByteInMessage(byte(b)))
 	}
-	sb.WriteString("]\n\nend ConfModel.Generated.C18Facts\n")
+	sb.WriteString("]\n\n")
+	c18GetFacts(&sb)
+	sb.WriteString("end ConfModel.Generated.C18Facts\n")
 	out := ""
 	for i, a := range os.Args {
 		if a == "--out" && i+1 < len(os.Args) {
